@@ -38,7 +38,11 @@ def prove(chk, files, prop_file, groups=("core",), gen_modules=None):
     """Build `files` (+ the property file). Fills the obligations part of the evidence.
     Returns (ok, build_result)."""
     targets = list(files) + [prop_file]
-    br = common.build(targets=None)
+    for g in groups:
+        ex = f"Extract_{g}.v"
+        if ex not in targets and os.path.exists(os.path.join(COQ, ex)):
+            targets.append(ex)
+    br = common.build(targets=targets, groups=tuple(groups))
     chk.br = br
     cov = chk.cov
     names = common.count_statements(prop_file)
